@@ -662,6 +662,9 @@ pub fn run(ctx: &Ctx, which: Which) -> Evidence {
     run_part("arbitrary", n_arb, ctx.seed ^ 0x99, &|| arbitrary_case().boxed(), &mut ev);
     let (e, h) = collected.into_inner().unwrap();
     ev.merge(e);
+    if which == Which::C06 {
+        process_level_c06(ctx, &mut ev, &known);
+    }
     harness_errors += h;
     if which == Which::C06 {
         ev.excluded_known = 0;
@@ -674,6 +677,75 @@ pub fn run(ctx: &Ctx, which: Which) -> Evidence {
         std::process::exit(if code == 1 { 1 } else { 2 });
     }
     ev
+}
+
+/// C06 at process level: `2a-emulator verify p` must exit 0 for an accepted program and
+/// `2a-emulator run p 0` must not die by panic.
+fn process_level_c06(ctx: &Ctx, ev: &mut Evidence, known: &[String]) {
+    use proptest::strategy::ValueTree;
+    let bin = crate::props::c12::BIN;
+    if !std::path::Path::new(bin).exists() {
+        ev.extra.insert("process_level".into(), json!("skipped: repository binary not built"));
+        return;
+    }
+    let n: usize = ctx.tier.pick(320, 6400);
+    let per = n / 32;
+    let res = par_chunks(ctx.threads, 32, |k| {
+        let mut runner = runner(mix(ctx.seed ^ 0xC06 ^ ((k as u64) << 40)), per as u32);
+        let strat = valid_case(C06_OPTS);
+        let dir = std::path::PathBuf::from(format!("/verif/target/tmp-c06/w{}", k));
+        let _ = std::fs::create_dir_all(&dir);
+        let path = dir.join("p.asm");
+        let mut out: Vec<(String, String, String)> = vec![];
+        let mut spawned = 0u64;
+        for _ in 0..per {
+            let c = strat.new_tree(&mut runner).unwrap().current();
+            let asm = match refparse::parse(&c.text) {
+                Ok(a) => a,
+                Err(_) => continue,
+            };
+            if std::fs::write(&path, &c.text).is_err() {
+                continue;
+            }
+            let (backward, size) = refasm::layout_flags(&asm);
+            let shape = match (backward, size > 240) {
+                (false, false) => "ok",
+                (true, false) => "backward-org",
+                (false, true) => "image>240",
+                (true, true) => "backward-org+image>240",
+            };
+            let run = |args: &[&str]| std::process::Command::new(bin).env("NO_COLOR", "1").env("TMPDIR", &dir).args(args).arg(&path).output();
+            spawned += 1;
+            match run(&["verify"]) {
+                Ok(o) => {
+                    if o.status.code() != Some(0) {
+                        out.push((c.text.clone(), "cli:verify-rejects-accepted-program".into(), format!("`2a-emulator verify` exits with {:?} for an accepted program: {}", o.status.code(), String::from_utf8_lossy(&o.stderr).chars().take(200).collect::<String>())));
+                    }
+                }
+                Err(_) => continue,
+            }
+            if let Ok(o) = std::process::Command::new(bin).env("NO_COLOR", "1").env("TMPDIR", &dir).arg("run").arg(&path).arg("0").output() {
+                if o.status.code() == Some(101) || o.status.code().is_none() {
+                    let sig = format!("cli:run-dies:shape={}", shape);
+                    if !out.iter().any(|x| x.1 == sig) {
+                        out.push((c.text.clone(), sig, format!("`2a-emulator run p 0` died (status {:?}) on an accepted program: {}", o.status.code(), String::from_utf8_lossy(&o.stderr).lines().filter(|l| l.contains("panicked") || l.contains("Message")).take(2).collect::<Vec<_>>().join(" | "))));
+                    }
+                }
+            }
+        }
+        let _ = std::fs::remove_dir_all(&dir);
+        (spawned, out)
+    });
+    let mut spawned = 0;
+    for (n, out) in res {
+        spawned += n;
+        for (t, s, d) in out {
+            let _ = known;
+            ev.violation("text", &s, d, json!({"text": t, "class": "process"}));
+        }
+    }
+    ev.evaluations += 2 * spawned;
+    ev.class("process:programs-verified-and-run", spawned);
 }
 
 fn v_detail(v: &Verdict) -> String {
